@@ -942,6 +942,13 @@ def check_request(G_, req, r, stats=None, mixed=False):
 # evaluation of a batch of cases: implementation, model, both oracles
 # ================================================================================================
 
+def soft_deadline(ctx, quick_s=75.0):
+    """The quick tier stops generating after about quick_s seconds of correspondence work (the registered check
+    should stay within ~2 minutes wall on a loaded machine); the thorough tier runs to ctx's own deadline."""
+    import time
+    return time.time() + quick_s if (ctx.tier == "quick" and not ctx.escalated) else float("inf")
+
+
 def load_corpus(pid):
     d = os.path.join(common.VERIF, "corpus", pid)
     out = []
@@ -959,7 +966,7 @@ def case_input(case):
     return {k: case[k] for k in ("graph", "prior", "history")}
 
 
-def run_cases(ctx, cases, workers=6):
+def run_cases(ctx, cases, workers=12):
     """Returns [(case, G, raw results, impl observables, model observables)]"""
     common.import_eups()            # in the parent, so that children inherit the imported (never constructed) eups
     raws = common.parallel_map(run_history, cases, workers=workers)
@@ -982,7 +989,7 @@ def run_cases(ctx, cases, workers=6):
     return out
 
 
-def evaluate(ctx, pid, cases, stats, workers=6, extra=None):
+def evaluate(ctx, pid, cases, stats, workers=12, extra=None):
     """Run the cases; report disagreements (oracle (i)) and the failures of `pid`'s clauses (oracle (ii))."""
     for case, G_, raw, impl, model in run_cases(ctx, cases, workers):
         inp = case_input(case)
